@@ -39,6 +39,8 @@ def id_problem(value, ver, prefix=None):
 
 
 def ts_key(text):
+    if not isinstance(text, str):
+        raise ValueError("timestamp is not a string")
     t, n, extra = tsref.parse(text)
     return (t, int((extra + "0" * 12)[:12] or "0"))
 
@@ -71,11 +73,12 @@ class V(object):
 
     # -- generic structure rules ------------------------------------------------
     def no_null_empty(self, val, path):
+        """Inside free-form values (dictionary values, unregistered extension bodies)."""
         if val is None:
-            self.bad("null", path, "null value")
+            self.bad("null-in-free-form-value", path, "null value")
         elif isinstance(val, list):
             if not val:
-                self.bad("empty-list", path, "empty list")
+                self.bad("empty-list-in-free-form-value", path, "empty list")
             for i, x in enumerate(val):
                 self.no_null_empty(x, "%s.[%d]" % (path, i))
         elif isinstance(val, dict):
@@ -371,13 +374,13 @@ class V(object):
             self.bad("constraint:MarkingDefinition:definition-pair", path, "definition_type and definition must come together")
         if dt is None or df is None:
             return
-        if dt not in self.m.markings:
+        if not isinstance(dt, str) or dt not in self.m.markings:
             self.bad("marking-type", path, "definition_type %r is not defined by the specification" % (dt,))
             return
         self.obj(df, self.m.markings[dt], path + ".definition", root, container)
         if dt == "tlp" and isinstance(df, dict):
             color = df.get("tlp")
-            if color not in self.m.tlp:
+            if not isinstance(color, str) or color not in self.m.tlp:
                 self.bad("tlp-instance", path, "unknown TLP colour %r" % (color,))
             else:
                 if doc.get("id") != self.m.tlp[color]:
@@ -458,6 +461,8 @@ def validate(doc, ver=None, container=False):
     if ver is None:
         ver = detect_version(doc)
     v = V(ver)
+    if not isinstance(doc, dict) or not isinstance(doc.get("type"), str):
+        return [("wrong-kind:object", "", "not an object with a string type")]
     if container:
         cname = v.m.class_for_type(doc.get("type"), container=True)
         if cname is None:
